@@ -1,5 +1,6 @@
 SPECIFICATION TSpec
 CONSTANTS
   Kinds <- TKinds
+  MaxSent = 1000000
 CONSTRAINT Done
 CHECK_DEADLOCK FALSE
